@@ -58,3 +58,15 @@ package livesql
 //@   call send assert failed ==> arg0.update != nil && arg0.update.err != nil
 //@   call send ghost failed = false
 //@   loop 1 invariant !failed
+
+// parseBinlogRowsEvent: every row image of the event is decoded, and an UPDATE event pairs row 2k (before) with row
+// 2k+1 (after): one delta per pair, none skipped.
+//@ func Binlog.parseBinlogRowsEvent
+//@   keeps replication.RowsEvent, replication.BinlogEvent, replication.EventHeader, [][]interface{}, update
+//@   call parseBinlogRow#1 assert arg1 == binlogRow
+//@   call parseBinlogRow#2 assert arg1 == rowsEvent.Rows[i]
+//@   call parseBinlogRow#3 assert arg1 == rowsEvent.Rows[i+1]
+//@   call parseBinlogRow#4 assert arg1 == binlogRow
+//@   loop 1 invariant len(update.deltas) == rangeindex+1
+//@   loop 2 invariant 0 <= i && 2*len(update.deltas) == i
+//@   loop 3 invariant len(update.deltas) == rangeindex+1
